@@ -104,6 +104,15 @@ func (q *PriorityQueue) Push(val *rtp.Packet, priority uint16) {
 	q.length++
 }
 
+// dropPrevOfHead unlinks the node that was just popped from the new head. The
+// new head kept pointing back at it, and it at the one popped before it, so
+// that every node ever popped stayed reachable.
+func (q *PriorityQueue) dropPrevOfHead() {
+	if q.next != nil {
+		q.next.prev = nil
+	}
+}
+
 // Length will get the total length of the queue.
 func (q *PriorityQueue) Length() uint16 {
 	return q.length
@@ -119,6 +128,7 @@ func (q *PriorityQueue) Pop() (*rtp.Packet, error) {
 	q.next.val = nil
 	q.length--
 	q.next = q.next.next
+	q.dropPrevOfHead()
 
 	return val, nil
 }
@@ -132,6 +142,7 @@ func (q *PriorityQueue) PopAt(sqNum uint16) (*rtp.Packet, error) {
 		val := q.next.val
 		q.next.val = nil
 		q.next = q.next.next
+		q.dropPrevOfHead()
 		q.length--
 
 		return val, nil
@@ -167,6 +178,7 @@ func (q *PriorityQueue) PopAtTimestamp(timestamp uint32) (*rtp.Packet, error) {
 		val := q.next.val
 		q.next.val = nil
 		q.next = q.next.next
+		q.dropPrevOfHead()
 		q.length--
 
 		return val, nil
